@@ -204,6 +204,31 @@ theorem C18_barrier_ends_when_both_seen (ye : Nat) (s s' : Sys) (t : Nat) (o : O
     simp [hpc] at h; obtain ⟨rfl, _⟩ := h
     exact ⟨_, List.getElem?_set_self hlt, by simp [afterLoop, hz]⟩
 
+/-! ## what the barrier does *not* promise
+
+The source says of the first look: "At least one of them should be zero by now, due to having drained the
+generation before leaving the previous writer." That is not so. The first look is sticky: writer W1 looks at slot 0,
+finds it empty, and only then a reader R1 enters slot 0 (still the current slot) and stays; W1 switches and leaves.
+A reader R2 enters slot 1. The next writer W2 finds *both* slots busy at its first look - without any stale entry,
+every reader entered the slot that was current when it read the generation. W2 switches to slot 0, R1 and R2 leave,
+and a reader R3 that began after the switch sits in slot 0: W2, which has seen slot 1 empty but never slot 0, is
+now waiting for a delivery that began after it published and after it switched. Each such wait ends when that
+delivery ends (`C18_barrier_ends_when_both_seen`, `C18_quiescent_completion`), so with finitely many deliveries
+every call returns; a bound in terms of "the deliveries in flight at the publication" does not exist, and an
+unbroken relay of deliveries could hold W2 for as long as it lasts. -/
+theorem C18_first_look_can_find_both_slots_busy :
+    let sc : List (List Cmd) := [[.write true false], [.read 3], [.write true false], [.read 1], [.read 1]]
+    let sched1 : List Nat := [0,0,0,0, 0,0, 1,1, 0,0,0, 2,2,2,2, 3,3, 2,2]
+    let s1 := (runSchedule 16 (Sys.init sc) sched1).1
+    let s2 := (runSchedule 16 (Sys.init sc) (sched1 ++ [3,3,3, 2, 1,1,1,1,1, 4,4, 2,2,2])).1
+    -- W2 (thread 2) has looked at both slots and found R1 in slot 0, R2 in slot 1
+    (s1.threads.map (·.pc)) = [.idle, .rData 0 3, .wFlip 1 false false, .rData 1 1, .idle] ∧
+      (s1.gen, s1.lock0, s1.lock1) = (1, 1, 1) ∧
+    -- after the switch R1 and R2 are gone; W2 still waits - for R3 (thread 4), which began after the switch
+    (s2.threads.map (·.pc)) = [.idle, .idle, .wHint 1 false true 2, .idle, .rData 0 1] ∧
+      (s2.gen, s2.lock0, s2.lock1) = (2, 1, 0) := by
+  decide
+
 /-! ## non-vacuity: a writer that saw slot 1 empty before it switched the generation is about to find
 slot 0 empty while a later reader sits in slot 1: its barrier ends with that load -/
 example :
